@@ -7,7 +7,7 @@ enumerates becomes a real call without generating code:
             "steps": [{"pre": [LOG...], "act": "emit|emitfin|fin|none|raise", "post": [LOG...],
                        "rows": int, "md": bool, "name": str}, ...],
             "past": "fin" | "emit"}
-    LOG  = {"id": int, "level": "INFO", "text": str, "extra": {..} | null, "via": "kwargs" | "attr"}
+    LOG  = {"id": int, "level": "INFO", "text": str, "extra": {..} | null, "via": "kwargs" | "attr", "api": "ctx" | "out"}
 
 State objects are serialisable dataclasses (HTTP re-creates them on every request), so everything the state
 *saw* is recorded in a process-global registry keyed by the call's argument x:
@@ -56,18 +56,19 @@ def expected_input(x: int, k: int, rows: int = 1) -> dict:
     return {"a": [x * 10 + k + r for r in range(rows)], "b": [f"s{k}-{r}" for r in range(rows)]}
 
 
-def _emit_log(ctx: CallContext, x: int, lg: dict) -> None:
+def _emit_log(ctx: CallContext, x: int, lg: dict, out: OutputCollector | None = None) -> None:
+    """api "ctx": CallContext.client_log / emit_client_log;  api "out" (process steps only): the collector's own
+    OutputCollector.client_log / emit_client_log_message -- two entry points into the same log channel."""
     rec(x, ("l", lg["id"]))
     level = Level(lg["level"])
     extra = lg.get("extra")
+    use_out = lg.get("api") == "out" and out is not None
     if lg.get("via") == "attr":
         m = Message(level, lg["text"])
         m.extra = dict(extra) if extra else None
-        ctx.emit_client_log(m)
-    elif extra:
-        ctx.client_log(level, lg["text"], **extra)
+        (out.emit_client_log_message if use_out else ctx.emit_client_log)(m)
     else:
-        ctx.client_log(level, lg["text"])
+        (out.client_log if use_out else ctx.client_log)(level, lg["text"], **(extra or {}))
 
 
 def _schema_class(inp: AnnotatedBatch | None, x: int, k: int, rows: int) -> str:
@@ -87,7 +88,7 @@ def _run_step(state, inp: AnnotatedBatch | None, out: OutputCollector, ctx: Call
                                                             "name": prog.get("past", "fin")}
     rec(state.x, ("P", state.k, st.get("name", st["act"]), _schema_class(inp, state.x, state.k, prog.get("in_rows", 1))))
     for lg in st.get("pre", []):
-        _emit_log(ctx, state.x, lg)
+        _emit_log(ctx, state.x, lg, out)
     act = st["act"]
     if act == "raise":
         rec(state.x, ("e",))
@@ -100,7 +101,7 @@ def _run_step(state, inp: AnnotatedBatch | None, out: OutputCollector, ctx: Call
         rec(state.x, ("d", state.nd))
         out.emit_pydict({"v": [ident] * rows}, metadata=md)
     for lg in st.get("post", []):
-        _emit_log(ctx, state.x, lg)
+        _emit_log(ctx, state.x, lg, out)
     if act in ("fin", "emitfin"):
         rec(state.x, ("s",))
         out.finish()
